@@ -639,8 +639,23 @@ Section Exec.
                 match rev ws with
                 | [] => ([], Err 3)
                 | last :: before_rev =>
+                    let outer := ctx_get [98; 108; 111; 99; 107] (* block *) (f_priv fr) in
                     match set_priv st [98; 108; 111; 99; 107] (* block *) (CBlock (cur_index st) (rev before_rev)) with
-                    | Ok st1 => exec_nodes f st1 last
+                    | Ok st1 =>
+                        match exec_nodes f st1 last with
+                        | (o, Ok st2) =>
+                            (* the enclosing block's "block" is back afterwards *)
+                            match top_frame st2 with
+                            | Ok fr2 =>
+                                let p := match outer with
+                                         | Some v => ctx_set [98; 108; 111; 99; 107] (* block *) v (f_priv fr2)
+                                         | None => ctx_del [98; 108; 111; 99; 107] (* block *) (f_priv fr2)
+                                         end in
+                                xok o (set_top st2 (with_priv fr2 p))
+                            | other => xfail o other
+                            end
+                        | other => other
+                        end
                     | other => xfail [] other
                     end
                 end
@@ -671,7 +686,10 @@ Section Exec.
                                     let iname := resolve_filename (tpl_is_string root) (tpl_name root) fn in
                                     match compile_file se f iname (ms_g st2) with
                                     | Ok (t, g') => exec_template f (mkM (ms_frames st2) (ms_nodes st2) g') t ictx
-                                    | Err 4 => if ifexists then xok [] st2 else ([], Err 4)
+                                    | Err 4 =>
+                                        if ifexists
+                                        then xok [] (mkM (ms_frames st2) (ms_nodes st2) (log_misses (se_loaders se) iname (ms_g st2)))
+                                        else ([], Err 4)
                                     | other => xfail [] other
                                     end
                                 end
